@@ -19,7 +19,7 @@ CHECKS = {
         technique="TLA+/TLC model checking of Pipeline.tla (cut half) and Splitter.tla (assignment half); TLC-generated behaviours replayed on the "
                   "real SourceRunner (barrier cut of source positions via spec/Pipeline.tla replayed on the real SourceRunner) and on the real "
                   "kinesis SourceSplitter/SplitTracker against the repo's kinesisfake, the real embedded and httpapi splitters and readers, and "
-                  "the real snapshots.Store",
+                  "the real snapshots.Store; one cut per restart: spec/Restart.tla (start() stepped, publication in two steps) replayed on the real jobs.Job with fake nodes, the snapshot write and every step of start() gated (checks/restartlib.py)",
         text="Cut half: barrier cut of source positions via spec/Pipeline.tla replayed on the real SourceRunner - TLC explores BarrierCut (cursor "
              "snapshot + ack + barrier placeholder in one loop iteration) in every schedule, simulated schedules are forced onto a real "
              "SourceRunner, the reported SplitStates are compared with the records ahead of the barrier in every operator stream and a fresh "
